@@ -243,7 +243,10 @@ fn format_timestamp_function(
         Utc,
     };
 
-    let dt = DateTime::from_timestamp(timestamp as i64, 0)
+    // a value beyond i64 is out of range, not a date before 1970 (`as i64` wrapped it)
+    let dt = i64::try_from(timestamp)
+        .ok()
+        .and_then(|seconds| DateTime::from_timestamp(seconds, 0))
         .ok_or_else(|| tera::Error::msg("Invalid timestamp"))?
         .with_timezone(&Utc);
     // An invalid strftime pattern makes chrono's Display fail; report it instead of panicking
